@@ -17,7 +17,10 @@ from props.c01 import BIN
 
 PID = "C02"
 THEOREMS = {
-    "CbOblig.C02": ["CbOblig.C02.ladder_is_spec", "CbOblig.C02.ladder_wf"],
+    "CbOblig.C02": ["CbOblig.C02.ladder_is_spec", "CbOblig.C02.ladder_wf", "CbOblig.C02.assign_ops_are_spec", "CbOblig.C02.assign_ops_awf"],
+    "CbProps.C02Assign": ["CbProps.C02Assign." + t for t in [
+        "parseAssign_of_derives", "parseAssign_fuel_independent", "parseAssign_printAssign", "assign_paren_invariance",
+        "assign_takes_whole_rhs", "assign_right_assoc", "non_target_rejected", "awf_of_check", "specAssign_awf"]],
     "CbProps.C02": ["CbProps.C02." + t for t in ["parse_printMin", "parse_printFull", "paren_invariance",
                                                   "min_eq_full", "specTable_wf", "wf_of_check"]]}
 
@@ -205,7 +208,7 @@ def assignment_cases():
 
 
 def main(a):
-    c = RefCheck(PID, a, ["CbGen", "CbProofs", "CbProps.C02", "CbOblig.C02"], THEOREMS, translators=["ladder"])
+    c = RefCheck(PID, a, ["CbGen", "CbProofs", "CbProps.C02", "CbProps.C02Assign", "CbOblig.C02"], THEOREMS, translators=["ladder"])
     if not c.build():
         return c.v.finish()
     if a.replay:
@@ -229,7 +232,8 @@ def main(a):
         extra={"exhaustive": True, "exhaustive_note": "operator pairs are enumerated completely; triples over the stated "
                "operator set; random trees are a sample"},
         assumptions=["postfix chains beyond [ ], casts, await, try are outside the ladder model",
-                     "the assignment level is not part of the Lean ladder (which stops at ?:): its grouping is checked end-to-end only"])
+                     "the assignment level is modelled on top of the ladder (CbModel/LadderAssign.lean: chains x1 op1 x2 op2 ... e with "
+                     "ladder operands); an assignment nested inside parentheses is outside that model and is checked end-to-end only"])
 
 
 def _corpus():
